@@ -33,12 +33,14 @@ type bkCore struct {
 	faults map[int]*Fault
 	Fired  []*Fault
 	Prefix string
+	OwnErr string // the double itself could not answer (its own evaluation of a query failed on what it stores): not a planned fault, not the handler's doing either
 }
 
 func (b *bkCore) begin(faults []Fault) {
 	b.Calls = nil
 	b.faults = nil
 	b.Fired = nil
+	b.OwnErr = ""
 	for i := range faults {
 		if faults[i].Seam == "backend" {
 			if b.faults == nil {
@@ -272,7 +274,11 @@ func (b *calBackend) QueryCalendarObjects(ctx context.Context, path string, q *c
 	if err := b.enter("QueryCalendarObjects", path, false, "", ""); err != nil {
 		return nil, err
 	}
-	return caldav.Filter(q, b.sortedObjs(path))
+	res, err := caldav.Filter(q, b.sortedObjs(path))
+	if err != nil {
+		b.OwnErr = err.Error()
+	}
+	return res, err
 }
 
 func (b *calBackend) PutCalendarObject(ctx context.Context, path string, cal *ical.Calendar, opts *caldav.PutCalendarObjectOptions) (*caldav.CalendarObject, error) {
@@ -430,7 +436,11 @@ func (b *cardBackend) QueryAddressObjects(ctx context.Context, path string, q *c
 	if err := b.enter("QueryAddressObjects", path, false, "", ""); err != nil {
 		return nil, err
 	}
-	return carddav.Filter(q, b.sortedObjs(path))
+	res, err := carddav.Filter(q, b.sortedObjs(path))
+	if err != nil {
+		b.OwnErr = err.Error()
+	}
+	return res, err
 }
 
 func (b *cardBackend) PutAddressObject(ctx context.Context, path string, card vcard.Card, opts *carddav.PutAddressObjectOptions) (*carddav.AddressObject, error) {
